@@ -11,6 +11,7 @@ EXPLANATION = (
     "component offsets, widths and byte order the key builder writes; the old files are renamed to *.bak and nothing "
     "is removed; the reopen path never truncates, never blindly re-initialises and validates the end marker. "
     "Equality of all query results before and after is not decided.")
+EXPLANATION += " Also decided: the backup path of every directory rebuild moves aside is cleared first (a directory cannot be renamed over a non-empty one: the second rebuild of a store would fail half-way), and nothing but a stale *.bak is ever removed."
 ASSUMPTIONS = []
 
 
